@@ -145,11 +145,13 @@ impl Svc for Handler {
         let (msgs, err) = Self::collect(&mut s).await;
         self.log_req(&md, msgs, err.as_ref());
         if let Some(e) = err { return Err(e); }
+        if let Some(ms) = self.script["latency_ms"].as_u64() { tokio::time::sleep(std::time::Duration::from_millis(ms)).await; self.log.ev(json!({"e":"srv_done"})); }
         self.single()
     }
     type SStreamStream = BoxStream;
     async fn sstream(&self, r: Request<Vec<u8>>) -> Result<Response<BoxStream>, Status> {
         self.log_req(r.metadata(), vec![r.get_ref().clone()], None);
+        if let Some(ms) = self.script["latency_ms"].as_u64() { tokio::time::sleep(std::time::Duration::from_millis(ms)).await; self.log.ev(json!({"e":"srv_done"})); }
         self.stream()
     }
     type BidiStream = BoxStream;
@@ -158,6 +160,7 @@ impl Svc for Handler {
         let (msgs, err) = Self::collect(&mut s).await;
         self.log_req(&md, msgs, err.as_ref());
         if let Some(e) = err { return Err(e); }
+        if let Some(ms) = self.script["latency_ms"].as_u64() { tokio::time::sleep(std::time::Duration::from_millis(ms)).await; self.log.ev(json!({"e":"srv_done"})); }
         self.stream()
     }
 }
